@@ -7,6 +7,7 @@
  *
  *   coll mode   R <call> <rank> <nslots> <crc32> <sendmod> [v0 v1 ...]     recv allocation incl. guards
  *               T <call> <rank> <t_enter %a> <t_exit %a> <rc>
+ *               S <call> <rank>   call entered          X <call> <rank>   wait of a non-blocking call entered
  *   rma mode    W <phase> <rank> v0 v1 ...                                 window snapshot after a sync
  *               G <phase> <rank> <opid> v0 v1 ...                          value fetched by a Get-type op
  *               E <phase> <rank> <opid> <rc>                                non-success return code
@@ -333,6 +334,7 @@ static void coll_start(call_t* c, int rank, int np, types_t* ty, MPI_Op user)
   }
   if (c->has_sb) c->scrc = buf_crc(&c->sb);
   c->t_enter = MPI_Wtime();
+  printf("S %d %d\n", c->idx, rank);
   int nb = c->nb;
   switch (c->kind) {
     case K_BARRIER: rc = nb ? MPI_Ibarrier(MPI_COMM_WORLD, rq) : MPI_Barrier(MPI_COMM_WORLD); break;
@@ -361,6 +363,7 @@ static void coll_finish(call_t* c, int rank, int full)
 {
   if (c->nb) {
     think_us(c->wskew[rank]);
+    printf("X %d %d\n", c->idx, rank);
     if (c->req != MPI_REQUEST_NULL) {
       if (c->usetest) {
         int flag = 0, spins = 0;
@@ -375,6 +378,8 @@ static void coll_finish(call_t* c, int rank, int full)
   printf("T %d %d %a %a %d\n", c->idx, rank, c->t_enter, t_exit, c->rc);
   if (c->has_rb) {
     if (c->kind == K_EXSCAN && rank == 0) buf_wipe(&c->rb, c->rdt, 0, c->rcount); /* undefined by the standard */
+    if ((c->kind == K_REDUCE || c->kind == K_GATHER || c->kind == K_GATHERV) && rank != c->root) /* not significant */
+      for (long i = 0; i < c->rb.n; i++) buf_set(&c->rb, i, CANARY_I);
     if (c->inplace && (c->kind == K_REDUCE_SCATTER || c->kind == K_REDUCE_SCATTER_BLOCK)) /* input area beyond the result: unspecified */
       buf_wipe(&c->rb, c->rdt, c->mine, c->rb.n / dt_ext[c->rdt]);
     int sendmod = c->has_sb ? (buf_crc(&c->sb) != c->scrc) : 0;
